@@ -198,7 +198,7 @@ def worker_main():
     """Child process: VERIF_REPO points to the scratch tree; argv: prop, json list of contract keys, timeout_ms."""
     prop, keys, timeout_ms = sys.argv[2], json.loads(sys.argv[3]), int(sys.argv[4])
     import importlib
-    from pyvc import lib  # noqa: F401  (loads extensions)
+    import pyvc.verify  # noqa: F401  (loads the extensions)
     from pyvc.contract import REGISTRY
     from pyvc.repo import get_repo
     from pyvc import specs_runtime
@@ -287,7 +287,7 @@ def main():
     a = ap.parse_args()
     import importlib
     from concurrent.futures import ThreadPoolExecutor
-    from pyvc import lib  # noqa: F401
+    import pyvc.verify  # noqa: F401  (loads the extensions)
     from pyvc.contract import REGISTRY
     from pyvc.repo import get_repo
     pm = importlib.import_module(f'props.{a.prop}')
